@@ -1,12 +1,14 @@
 import json,sys
 pid=sys.argv[1]
+avoid=sys.argv[2] if len(sys.argv)>2 else ''
+out=sys.argv[3] if len(sys.argv)>3 else pid
 for l in open('/verif/properties.jsonl'):
     p=json.loads(l)
     if p['id']==pid: break
 print(f"""You are helping test a verification framework for the open-source SQL linter sqlfluff by writing a *seeded defect*: a small, realistic change to sqlfluff's source that breaks one stated property while still compiling and passing the existing test-suite.
 
-Work ONLY inside the scratch git worktree at /tmp/wt_{pid} (a checkout of sqlfluff). Do not touch /repo or /verif, and do not read anything under /verif. To run Python against your worktree use:
-    cd /tmp/wt_{pid} && PYTHONPATH=/tmp/wt_{pid}/src /venv/bin/python ...
+Work ONLY inside the scratch git worktree at /tmp/wt_{out} (a checkout of sqlfluff). Do not touch /repo or /verif, and do not read anything under /verif. To run Python against your worktree use:
+    cd /tmp/wt_{out} && PYTHONPATH=/tmp/wt_{out}/src /venv/bin/python ...
 (the venv has sqlfluff's dependencies and pytest; `PYTHONPATH` makes `import sqlfluff` resolve to your worktree - verify with `python -c "import sqlfluff; print(sqlfluff.__file__)"`). There is no network.
 
 THE PROPERTY ({pid} - {p['title']}):
@@ -14,15 +16,17 @@ THE PROPERTY ({pid} - {p['title']}):
 Quantified over: {p['quantifier']['text']}
 
 YOUR TASK
-1. Read the relevant sqlfluff source under /tmp/wt_{pid}/src/sqlfluff and devise a change (a plausible bug a developer could introduce: an off-by-one, a wrong comparison, a dropped branch, a reordered step, a stale cache, a missed case, two sites that each look fine alone...) that makes the property FALSE for some inputs.
+1. Read the relevant sqlfluff source under /tmp/wt_{out}/src/sqlfluff and devise a change (a plausible bug a developer could introduce: an off-by-one, a wrong comparison, a dropped branch, a reordered step, a stale cache, a missed case, two sites that each look fine alone...) that makes the property FALSE for some inputs.
 2. The change must need something specific to manifest - an unusual input, a particular multi-step sequence, a rare configuration, a corner case - NOT something ordinary use would expose at once. It must NOT break the existing tests: run the most relevant test files with
-       cd /tmp/wt_{pid} && PYTHONPATH=/tmp/wt_{pid}/src /venv/bin/python -m pytest -q -p no:cacheprovider -x -n 4 <relevant test paths>
+       cd /tmp/wt_{out} && PYTHONPATH=/tmp/wt_{out}/src /venv/bin/python -m pytest -q -p no:cacheprovider -x -n 4 <relevant test paths>
    (e.g. test/core/..., test/api, test/cli, test/rules for rule changes; do not run the whole suite, it takes too long; pick the test directories that cover the files you changed and make sure they pass). If a test fails because of your change, refine the change so that tests pass but the property is still broken.
-3. Write a demonstration: a small standalone Python script (or pytest file) that exits non-zero / fails WITH your change and exits zero / passes WITHOUT it (check both by `git diff > /tmp/seed_out/{pid}/patch.diff; git checkout -- .; <run demo>; git apply /tmp/seed_out/{pid}/patch.diff`; NEVER use `git stash` - the stash is shared with other worktrees of the same repository and other people are using them concurrently).
-4. Produce these files in /tmp/seed_out/{pid}/ (create the directory):
+3. Write a demonstration: a small standalone Python script (or pytest file) that exits non-zero / fails WITH your change and exits zero / passes WITHOUT it (check both by `git diff > /tmp/seed_out/{out}/patch.diff; git checkout -- .; <run demo>; git apply /tmp/seed_out/{out}/patch.diff`; NEVER use `git stash` - the stash is shared with other worktrees of the same repository and other people are using them concurrently).
+4. Produce these files in /tmp/seed_out/{out}/ (create the directory):
    - patch.diff   : `git diff` of your change (source files only, relative to the worktree root, applicable with `git apply`)
-   - demo.py      : the demonstration script; it must be runnable as `PYTHONPATH=<root>/src /venv/bin/python demo.py` for any checkout root, so do not hard-code /tmp/wt_{pid} inside it (import sqlfluff normally)
+   - demo.py      : the demonstration script; it must be runnable as `PYTHONPATH=<root>/src /venv/bin/python demo.py` for any checkout root, so do not hard-code /tmp/wt_{out} inside it (import sqlfluff normally)
    - meta.json    : {{"property": "{pid}", "summary": "...what the change does...", "needs": "...what specific input/sequence/config is needed for it to manifest...", "tests_run": "...the pytest command(s) you ran and their result...", "files_changed": [...]}}
 5. Leave the worktree with your change applied (uncommitted is fine). Keep the patch small (ideally under 15 changed lines).
+
+{("ALREADY EXPLORED (choose a different mechanism and a different file if you can): " + avoid) if avoid else ""}
 
 Report back briefly: what the change is, what input triggers it, and which tests you ran. Be subtle and realistic; prefer a change in the core mechanism the property depends on.""")
